@@ -95,7 +95,7 @@ def main():
     static_facts = statics.run(pid, tier, workroot)
     known = [k for k in load_known() if k['property'] == pid]
     known_open = [k for k in known if k.get('status') == 'known']
-    n_obl = 0; n_ok = 0; solver_s = 0.0
+    n_obl = 0; n_ok = 0; solver_s = 0.0; n_known_cbmc = 0
     violations = []; known_seen = {}; samples = []; bounded = []
     functions = {}; dropped = set(); cmds = []
     for r in results:
@@ -123,6 +123,7 @@ def main():
                     hit = k; break
             if hit is not None:
                 known_seen.setdefault(hit['id'], {'finding': hit, 'obligations': []})['obligations'].append('%s :: %s' % (r.name, o['name']))
+                if r.kind != 'bounded': n_known_cbmc += 1
             else:
                 violations.append((r, o))
     # static-fact failures
@@ -180,10 +181,15 @@ def main():
         'integers are bit-precise machine integers (nothing is treated as mathematical); floats follow CBMC IEEE-754',
         'destructors, reference counts, exception unwinding order are dropped by the extraction (DESIGN.md 2.2)',
     ] + ['assume in verification text: ' + a for a in assumes]
+    n_known_obl = n_known_cbmc      # cbmc obligations attributed to listed known findings (static facts are not obligations)
     ev = {
         'property_id': pid, 'tier': tier, 'seed': seed, 'level': 'proof',
         'coverage': {
-            'obligations': n_obl, 'discharged': n_ok,
+            # the proof-level claim is about the obligations that are NOT attributed to a listed known finding; those are
+            # counted separately (obligations_generated = obligations + undischarged_attributed_to_known_findings) and each
+            # of them is printed as a KNOWN-FINDING line, never as discharged
+            'obligations': n_obl - n_known_obl, 'discharged': n_ok,
+            'obligations_generated': n_obl,
             'checker_cmd': cmds[0] if cmds else 'static facts only: ' + ', '.join(sf['name'] for sf in static_facts),
             'trusted_base': trusted,
             'samples': samples or [{'static_fact': sf['name'], 'status': sf['status']} for sf in static_facts[:5]],
@@ -206,8 +212,11 @@ def main():
     nc = os.path.join(ROOT, 'contracts', 'not_covered.json')
     if os.path.exists(nc):
         ev['coverage']['not_covered'] = json.load(open(nc)).get(pid, [])
-    os.makedirs(os.path.join(ROOT, 'evidence'), exist_ok=True)
-    json.dump(ev, open(os.path.join(ROOT, 'evidence', pid + '.json'), 'w'), indent=1)
+    # (seeded/run_seed.sh points VERIF_EVIDENCE_DIR at a scratch directory, so that a run on a deliberately broken tree never
+    #  replaces the evidence of the real one)
+    evdir = os.environ.get('VERIF_EVIDENCE_DIR') or os.path.join(ROOT, 'evidence')
+    os.makedirs(evdir, exist_ok=True)
+    json.dump(ev, open(os.path.join(evdir, pid + '.json'), 'w'), indent=1)
     for l in lines: print(l)
     print('SUMMARY property=%s tier=%s queries=%d obligations=%d discharged=%d known=%d undecided=%d violations=%d wall=%.0fs'
           % (pid, tier, len(results), n_obl, n_ok, len(known_seen), len(undecided), ev['violations'], wall))
